@@ -494,6 +494,20 @@ func VH_wrap_step() {
 		vapi.Cover("drained at Wrap time")
 		vapi.AssertBytesEqual(p[:n], D[:n], "first read after Wrap does not continue the stream")
 	}
+	// the following reads continue the stream B[off:] ++ D: nothing twice, nothing lost
+	S := append(append(make([]byte, 0, 10239+4096), B[off:]...), D...)
+	pos := n
+	for r := 0; r < 2 && err == nil; r++ {
+		q := make([]byte, vapi.Int("qlen", 1, 12000))
+		var m int
+		m, err = w.Read(q)
+		vapi.Assert(pos+m <= len(S), "reads after Wrap returned more than the stream holds")
+		vapi.AssertBytesEqual(q[:m], S[pos:pos+m], "a later read after Wrap does not continue the stream (bytes served twice or lost)")
+		pos += m
+	}
+	if pos > avail && avail > 0 {
+		vapi.Cover("read past the bytes buffered at Wrap time")
+	}
 }
 
 // ---- one-step lemma over the Connection representation -----------------------------------
